@@ -8,10 +8,6 @@ from props.C04 import EDIT
 TOK = [b"any", b"all", b"gnu", b"linux", b"amd64", b"musl", b"kfreebsd", b"x", b""]
 
 
-def is_blank_arch(impl_parse):
-    return "( x x x )" in impl_parse
-
-
 def run(chk):
     rng = chk.rng
     texts = []
@@ -45,8 +41,6 @@ def run(chk):
                 continue
             v = {"kind": "property", "case": lib.show_case(("drt", [t])), "parsed": p[:1500], "roundtrip_" + label: res[:1500],
                  "explanation": "Parse(%s(Parse(x))) is not structurally identical to Parse(x)" % label}
-            if is_blank_arch(p):
-                v["class"] = "blank-arch"
             chk.violate(v)
     # architecture names: exhaustive over 1..4 dash-separated tokens
     names = set()
@@ -63,13 +57,13 @@ def run(chk):
     chk.record("arch-control-interface", cc, ci, lambda c, r: True)
     for n, r, c in zip(names, ai, ci):
         for label, res in (("String", r), ("MarshalControl", c)):
+            if res == "err":
+                continue          # a name ParseArch refuses (an empty component) is outside the round trip
             t = res.split(" ")
             if len(t) == 7 and t[0:3] == t[4:7]:
                 continue
             v = {"kind": "property", "case": lib.show_case(("art", [n])), "result": res,
                  "explanation": "ParseArch(%s(ParseArch(x))) differs from ParseArch(x)" % label}
-            if t[0:3] == ["x", "x", "x"]:
-                v["class"] = "blank-arch"
             chk.violate(v)
     # a receiver that is used again: Arch.UnmarshalControl(b) into a value that holds the parse of a gives the parse of b
     ok_names = [n for n, r in zip(names, ai) if not r.startswith("err")]
@@ -82,7 +76,7 @@ def run(chk):
             chk.violate({"kind": "property", "case": lib.show_case(c), "impl": a, "fresh_parse": b,
                          "explanation": "parsing an architecture name into a value that was used before gives another triple than a fresh parse"})
     chk.extra["arch_names_exhaustive"] = {"tokens": [x.decode() for x in TOK], "max_parts": 4}
-    chk.assumptions += ["the architecture spelled '--' (triple of empty strings) is excluded: known finding blank-arch"]
+    chk.assumptions += ["architecture names with an empty component ('', '-', 'linux-', '--') are refused by ParseArch (repair 2fb87ac) and so are outside the round trip"]
 
 
 def replay(chk, d):
